@@ -18,6 +18,9 @@ from nl.model import short
 from props import repl, C09, C10
 
 RULES = {
+    'C04.h': 'the rp wrapper carries the wrapped command byte for byte: the parser of a wrapper word stores the rest of the line in the '
+             'request without a string transformation (only the removal of line ends); a trim there changes values on the receiving '
+             'nodes only, the originator keeps what the client sent',
     'C04.a': 'a Request variant whose dispatcher arm writes Database.map / Databases.map / the snapshot queue has an arm '
              'in the replication table that enqueues a message (exceptions: UseDb — per-node $connections; Arbiter — local clean-up)',
     'C04.b': 'every template sent on the replication channel agrees with the parser of its command word: required '
@@ -44,6 +47,11 @@ NO_VERSION = ('CreateUser', 'SetPermissions')
 
 
 def run(ck, m):
+    _run(ck, m)
+    wrapper_verbatim(ck, m)
+
+
+def _run(ck, m):
     for k, v in RULES.items():
         ck.rule(k, v)
     ex = m.explorer()
@@ -368,3 +376,59 @@ def run(ck, m):
                     ck.ob('C04.f', 'replication-table', '%s:%s:number' % (v, wire.first_word(f)), ok,
                           'the number in %r emitted for %s comes from %s' % (f.text(), v, sorted(descs)), f.body.loc(f.bi) if f.bi is not None else '')
     ck.floor('C04.f', nf, 8, 'version / increment operands traced')
+
+
+
+def wrapper_verbatim(ck, m):
+    from props import C10
+    P = m.prog
+    parsers, words = C10.parser_table(m)
+    prods, schemas = C10.wire_facts(m)
+    d, sw = m.dispatcher()
+    pr = m.reentry_names()
+    # wrapper variants: arms that re-enter the request entry
+    wvars = set()
+    for v, tb in sw[1].items():
+        if tb == sw[2]:
+            continue
+        reg = m.arm_region(d, sw, v)
+        if any(d.term(x)['k'] == 'call' and callee(d.term(x)) in pr for x in reg):
+            wvars.add(v)
+    IDENT = core.LOOK_THROUGH | {'std::string::String::from'}
+    n = 0
+    for w, fn in words.items():
+        top, vs, reason = schemas.get(w, (None, None, None))
+        if not (set(vs or ()) & wvars):
+            continue
+        b = P.bodies[fn]
+        for bl in b.blocks:
+            for s in bl['s']:
+                if s['k'] == 'assign' and s['r']['k'] == 'agg' and s['r'].get('adt') == 'nundb::bo::Request' and s['r'].get('variant') in wvars:
+                    rv = s['r']
+                    var = [x for x in P.adts['nundb::bo::Request']['variants'] if x['name'] == rv['variant']][0]
+                    for f, op in zip(var['fields'], rv['ops']):
+                        if f['ty'] != 'std::string::String':
+                            continue
+                        n += 1
+                        bad = []
+
+                        def walk(o, depth=0):
+                            for r in origins(b, o, stop_at_calls=True):
+                                if r[0] != 'call' or depth > 6:
+                                    continue
+                                t_ = b.term(r[1])
+                                d_ = callee_decl(t_)
+                                if d_ in IDENT:
+                                    if t_['args']:
+                                        walk(t_['args'][0], depth + 1)
+                                elif d_ == 'std::str::replace' and any(core.const_str(q) in ('\n', '\r\n') for q in origins(b, t_['args'][1])):
+                                    walk(t_['args'][0], depth + 1)
+                                elif d_.startswith('std::str::') or d_.startswith('std::string::String::'):
+                                    bad.append(d_.split('::')[-1])
+                        walk(op)
+                        ck.ob('C04.h', short(fn), '%s.%s:verbatim' % (rv['variant'], f['name']), not bad,
+                              'the wrapped command is stored as it was sent' if not bad else
+                              'the wrapped command passes through %s: every replicated command is unwrapped by this parser, so a value ending '
+                              'in blanks (or "\\r" from a CRLF client, or `set-permissions u r`) differs between the node that took the client\'s '
+                              'command and the nodes that received it' % bad, '%s:%s' % (b.file, b.line))
+    ck.floor('C04.h', n, 1, 'text fields of wrapper requests')
